@@ -14,6 +14,7 @@ let z_of_string (s : string) : BinNums.coq_Z =
   if neg then BinInt.Z.opp !acc else !acc
 
 let sites : (string * int, string * int) Hashtbl.t = Hashtbl.create 256
+let site_targets : (string * int, string) Hashtbl.t = Hashtbl.create 256
 let load_sites path =
   let ic = open_in path in
   let s = really_input_string ic (in_channel_length ic) in
@@ -29,7 +30,8 @@ let load_sites path =
        let p = Str.search_forward re_obj s !pos in
        let o = Str.matched_string s in
        pos := p + String.length o;
-       (try Hashtbl.replace sites (field o "file", int_of_string (field o "line")) (field o "fn", int_of_string (field o "ord")) with Not_found -> ())
+       (try Hashtbl.replace sites (field o "file", int_of_string (field o "line")) (field o "fn", int_of_string (field o "ord")) with Not_found -> ());
+       (try Hashtbl.replace site_targets (field o "file", int_of_string (field o "line")) (field o "target") with Not_found -> ())
      done with Not_found -> ())
 
 exception Mismatch of string
